@@ -194,6 +194,16 @@ func c01Sweep() []string {
 			}
 		}
 	}
+	// long runs: a closure called 12000 times by ONE built-in. The Go loops of the list methods keep one value stack across
+	// all callbacks of an operation; a slot that is not popped per callback (round-5 seed C01-13: CreateFrame without the pop)
+	// only exhausts the 10000-slot stack on a long list, every short program behaves as before.
+	res = append(res,
+		"numbers(12000).reduce((x, y) -> x + y + a)", "numbers(12000).map(e -> e + a).sum()", "numbers(12000).mapReduce(0, (s1, e1) -> s1 + e1 * a)",
+		"numbers(12000).iir(e -> e, (e, p) -> e + a).last()", "numbers(12000).combine((x, y) -> y - x + a).sum()", "numbers(12000).number((i, e) -> i - e + a).sum()",
+		"numbers(12000).orderLess((x, y) -> x > y).first() + a", "numbers(12000).order(e -> 0 - e).first() + a", "numbers(12000).accept(e -> e % 2 = a % 2).size()",
+		"numbers(12000).indexWhere(e -> e > 11990 + a % 2)", "let f = (x, y) -> x + y; numbers(12000).reduce(f) + a", "numbers(12000).visit(0, (v, e) -> v + 1 + a)",
+		"numbers(12000).minMax(e -> e + a).max", "let g = q -> q.reduce((x, y) -> x + y); g(numbers(12000)) + g(numbers(3)) + a",
+		"numbers(12000).combine3((x, y, z) -> z - x + a).sum()", "numbers(12000).compact((x, y) -> x = y + a).size()", "numbers(12000).present(e -> e > 11990 + a)")
 	return res
 }
 
